@@ -36,6 +36,16 @@ PROPS = {
         "quick": {"shards": 16, "cases": 40000, "require": {"evaluations": 1000000, "rows_satisfying": 200000, "pairs_matching": 50000, "narrowed_types": 50000}},
         "thorough": {"shards": 16, "cases": 1500000, "watchdog_s": 7200, "require": {"evaluations": 30000000}},
     },
+    "C12": {
+        "technique": "runtime monitoring: inject_into / super_image / value / as_data_type observed on generated (source type, target type, adjacent value pair) triples; oracle = membership in the converted type, numeric equality, injectivity on adjacent values, round trip",
+        "level_text": "Exploration: ~1M conversions per quick run over all ordered pairs of scalar variants plus optional/list/struct/set/array liftings; values come in adjacent pairs (neighbouring integers around 2^53, adjacent floats, strings differing by one character, consecutive dates) so that a loss of injectivity is observed directly.",
+        "level_note": "Trusted: membership oracle and canonical numeric equality. Round trips are judged for scalar sources only.",
+        "rule": ("evaluation = one converted value; distinct non-trivial = distinct (A, B, v) with a successful conversion. "
+                 "Refused conversions are counted per variant pair, not judged."),
+        "assumptions": COMMON_ASSUME,
+        "quick": {"shards": 16, "cases": 60000, "require": {"evaluations": 600000, "pairs_checked_for_injectivity": 300000, "round_trips": 100000}},
+        "thorough": {"shards": 16, "cases": 3000000, "watchdog_s": 7200, "require": {"evaluations": 30000000}},
+    },
     "C15": {
         "technique": "runtime monitoring: Hierarchy::get / get_key_value / Index compared with a 10-line reference model on exhaustive small scopes and random path maps; SQL queries naming a column present in both joined tables must not be accepted",
         "level_text": "Exploration, exhaustive on a small scope: all maps of <= 3 entries over 2 symbols and depth <= 3 x all lookup paths of depth <= 4 (469 maps x 31 paths) every run; random maps of 1..12 entries with shared suffixes, nested prefixes, odd names, looked up by every suffix, extension and near-miss; ~5k generated join queries whose unqualified column is in both / one / none of the tables (ON, USING, NATURAL, CROSS; aliases).",
